@@ -88,8 +88,9 @@ UnitRunOK(r) ==
              latest == IF arrive = {} THEN 0 ELSE CHOOSE a \in arrive : \A b \in arrive : b <= a
          IN /\ tk.sec = tk.expect
             /\ tk.ast = MaxI(tk.alloc, latest)
-    /\ r.obs_seconds = 240
-    /\ r.vol = 720
+    /\ r.finished
+    /\ r.obs_seconds = r.dur
+    /\ r.vol = 3 * r.dur
 
 (* ------------------------------- C15 ------------------------------------ *)
 (* call record: [prob1000, dist, degree, seed, runtime, result, raised, again] *)
